@@ -75,14 +75,14 @@ def load_known(prop):
 
 
 def write_replay(prop, kind, payload):
-    d = os.path.join(VERIF, 'replays', prop)
+    d = os.path.join(os.environ.get('VERIF_REPLAY_DIR') or os.path.join(VERIF, 'replays'), prop)
     os.makedirs(d, exist_ok=True)
     body = json.dumps(payload, indent=1, sort_keys=True, default=str)
     h = hashlib.sha1(body.encode()).hexdigest()[:12]
     path = os.path.join(d, f'{kind}-{h}.json')
     with open(path, 'w') as f:
         f.write(body + '\n')
-    return os.path.relpath(path, VERIF)
+    return os.path.relpath(path, VERIF) if path.startswith(VERIF + os.sep) else path
 
 
 def main():
